@@ -11,8 +11,13 @@ def job(arg):
     build = importlib.import_module(modname).build
     reset()
     t0 = time.time()
+    from .cysym import KernelOOB
     try:
         obs, assumptions, info = build(cfg)
+    except KernelOOB as e:
+        # boundscheck=False / wraparound=False in the real build: an out-of-range index is silent memory corruption there
+        return {'group': cfg['group'], 'n': 1, 'unsat': 0, 'sat': [], 'unknown': [], 'solver_s': 0, 'queries': 0, 'samples': [],
+                'extra': {}, 'oob': str(e), 'cfg': cfg}
     except Exception as e:
         import traceback
         return {'group': cfg['group'], 'n': 0, 'unsat': 0, 'sat': [], 'unknown': [], 'solver_s': 0, 'queries': 0, 'samples': [],
@@ -63,6 +68,24 @@ def handle(run, results, build, what='entries differ from the oracle'):
     for res in results:
         if res.get('error'):
             run.harness_error('%s %s: %s' % (res['group'], res['cfg'], res['error'][:600]))
+            continue
+        if res.get('oob'):
+            from .cysym import KernelOOB
+            run.obligations += 1
+            cfg = res['cfg']
+            try:
+                concrete_replay(build, cfg, {})
+                again = None
+            except KernelOOB as e:
+                again = str(e)
+            except Exception as e:
+                again = None
+            if again:
+                run.violation('%s/%s/out-of-bounds-access' % (res['group'], cfg.get('variant', cfg.get('rel', '-'))),
+                              '%s: a kernel indexes outside its buffer (%s); the compiled code is built without bounds checks' % (res['group'], again),
+                              {'cfg': cfg, 'symbolic_run': res['oob'], 'exact_replay': again})
+            else:
+                run.harness_error('out-of-bounds access of %s did not reproduce in the exact replay: %s' % (res['group'], res['oob']))
             continue
         sats = run.absorb_job(res)
         if 'canary_sat' in res:
